@@ -330,10 +330,45 @@ def r03_1(ctx: Ctx) -> None:
 
 # ------------------------------------------------------------------------------------------------ estimator
 
+def _positional_width_pairing(ctx: Ctx, c) -> None:
+    """col_widths has one entry per DISPLAYED column.  Pairing a sequence derived from it positionally (zip) with ALL columns of the
+    frame - removed ones filtered only afterwards - gives every displayed column right of a removed one its neighbour's width and
+    leaves the last displayed columns unmeasured."""
+    fn = c.node
+    if "removed_column_indices" not in _params(fn):
+        return
+    asg = assignments(fn)
+    removed = {nme for nme, vals in asg.items() if any("removed_column_indices" in unparse(v) for v in vals)} | {"removed_column_indices"}
+
+    def names(e):
+        return {n.id for n in ast.walk(e) if isinstance(n, ast.Name)}
+    for z in ast.walk(fn):
+        if not (isinstance(z, ast.Call) and dotted(z.func) == "zip" and len(z.args) >= 2):
+            continue
+        res = [resolve(a, fn) for a in z.args]
+        from_widths = [a for a, r in zip(z.args, res) if "col_widths" in names(r) | names(a)]
+        all_cols = []
+        for a, r in zip(z.args, res):
+            if "col_widths" in names(r) | names(a):
+                continue
+            x = r
+            while isinstance(x, ast.Call) and dotted(x.func) in ("enumerate", "list", "tuple", "iter") and x.args:
+                x = x.args[0]
+            whole = unparse(x) in ("df.columns", "range(df.width)", "range(len(df.columns))", "df.get_columns()", "range(df.shape[1])")
+            if whole and not (names(r) | names(a)) & removed:
+                all_cols.append(a)
+        if from_widths and all_cols:
+            ctx.instance("R03.6", c.where(z), f"positional pairing `{unparse(z)[:80]}` of displayed-column widths with the columns of the frame")
+            ctx.violation("R03.6", c.short, "column width derivation", c.where(z),
+                          f"`{unparse(z)[:80]}` pairs the widths (one per displayed column) by position with ALL columns of the frame (`{unparse(all_cols[0])}`), removed columns "
+                          "included: a displayed column to the right of a removed one is wrapped with its neighbour's width and the last displayed columns are not measured at all")
+
+
 def r03_3_6(ctx: Ctx) -> None:
     pm = ctx.pm
     c = pm.func("PageBreakCalculator.calculate_row_metadata")
     fn = c.node
+    _positional_width_pairing(ctx, c)
     calls = [x for x in walk_no_nested(fn) if isinstance(x, ast.Call) and dotted(x.func).split(".")[-1] == "get_string_width"]
     if len(calls) != 1:
         ctx.gap("R03.3", f"the per-cell width measurement could not be re-identified in {c.short} ({len(calls)} calls of get_string_width)")
